@@ -1757,8 +1757,8 @@ func IsSelectAllAggregate(query *Query) bool {
 
 func ExecSelect(query *Query, current []any) ([]any, error) {
 	copy := make([]any, 0)
-	if IsSelectAllAggregate(query) {
-		// whole-table aggregates cover the rows that passed WHERE
+	if len(query.groupDefinition) == 0 && IsSelectAllAggregate(query) {
+		// whole-table aggregates cover the rows that passed WHERE; with GROUP BY every group yields its own row
 		rs, err := SelectExpr(query, Map{"*": current}, &query.selectDefinition)
 		if err != nil {
 			return nil, err
